@@ -90,7 +90,7 @@ func (e *Exec) intrinsic(fn *ssa.Function, name string, args []Value) (Value, bo
 			}
 			fp := &PtrV{obj: p.obj, path: extendPath(p.path, pathElem{i: i})}
 			switch u := f.Type().Underlying().(type) {
-			case *types.Basic, *types.Struct, *types.Array:
+			case *types.Basic, *types.Struct, *types.Array, *types.Slice:
 				if b, ok := u.(*types.Basic); ok && b.Kind() == types.String {
 					continue
 				}
@@ -189,7 +189,7 @@ func (e *Exec) intrinsic(fn *ssa.Function, name string, args []Value) (Value, bo
 		return e.c64(int64(n)), true
 	case "vCancelReleased":
 		// no goroutine left behind: every recorded goroutine ran to completion
-		e.wake()
+		e.wakeNow()
 		for _, t := range e.threads {
 			if !t.done {
 				return e.st.False, true
@@ -219,7 +219,15 @@ func (e *Exec) intrinsic(fn *ssa.Function, name string, args []Value) (Value, bo
 		}
 		return e.st.Bool(ia >= 0 && ib >= 0 && ia < ib), true
 	case "vSettle":
+		// natively: time for woken goroutines to run; here: run whatever is runnable
+		// (a no-op under the default eager schedule)
+		e.wakeNow()
 		return nil, true
+	case "vSchedLazy":
+		e.lazy = args[0].(*Term).IsTrue()
+		return nil, true
+	case "vStress":
+		return e.c64(1), true
 	case "vStop":
 		panic(pathEnd{"bounded", "harness bound reached: " + e.constString(args[0])})
 	case "vKindCount":
